@@ -77,6 +77,9 @@ class Sess:
         self.down = set()
         self.cid = 0
         self.chans = rng.sample(CHANNELS, rng.choice([2, 3, 3, 4]))
+        if rng.randrange(3) == 0:
+            # channels whose ssids fold to one 32-bit XOR value: one bucket of a peer's subscription counters
+            self.chans = rng.choice([[b"a/b/", b"b/a/", b"a/a/", b"b/b/"], [b"a/b/x/", b"b/x/a/", b"x/a/b/", b"x/b/a/"], [b"a/", b"a/b/b/", b"a/x/x/"]])
         self.used = set()
         # one publisher per broker that never subscribes
         for b in range(1, n + 1):
